@@ -570,3 +570,45 @@ def expand_expr(model, func, expr, depth=0):
                         return _SubstNames(env).visit(copy.deepcopy(inner))
             return c
     return T().visit(copy.deepcopy(e))
+
+
+
+# ---------------------------------------------------------------------------
+# textual order inside a (normalised) function, independent of line numbers
+# ---------------------------------------------------------------------------
+
+def node_span(root, node):
+    """(first, last) pre-order index of `node`'s subtree inside `root`.  Line numbers are not a reliable order after normalisation:
+    code inlined from a helper keeps the helper's lines (so that its source text can still be quoted)."""
+    spans = getattr(root, "_spans", None)
+    if spans is None:
+        spans = {}
+        counter = [0]
+
+        def visit(n):
+            start = counter[0]
+            counter[0] += 1
+            for ch in ast.iter_child_nodes(n):
+                visit(ch)
+            spans[id(n)] = (start, counter[0] - 1)
+        visit(root)
+        try:
+            root._spans = spans
+        except AttributeError:
+            pass
+    return spans.get(id(node))
+
+
+def comes_before(root, a, b):
+    """a ends before b starts (in the text of the normalised function)."""
+    sa_, sb_ = node_span(root, a), node_span(root, b)
+    if sa_ is None or sb_ is None:
+        return getattr(a, "end_lineno", getattr(a, "lineno", 0)) < getattr(b, "lineno", 0)
+    return sa_[1] < sb_[0]
+
+
+def is_inside(root, inner, outer):
+    si, so = node_span(root, inner), node_span(root, outer)
+    if si is None or so is None:
+        return getattr(outer, "lineno", 0) <= getattr(inner, "lineno", 0) <= getattr(outer, "end_lineno", 0)
+    return so[0] <= si[0] and si[1] <= so[1]
